@@ -26,7 +26,7 @@ const c18aPort = 19860
 
 func TestVerifC18WithAuthz(t *testing.T) {
 	res := vNewResult("C18", "[with client authorisation on] single-node server, activity stream enabled, tls.client.authz switch and casbin enforcer set as startAPIServer sets them, policy: client alice may do everything on every stream used (incl. the activity stream); "+
-		"alice creates / pauses / deletes streams; a subscription on the activity stream must deliver one event per committed operation, in commit order, within 15 s; control run without authorisation first; "+
+		"alice creates / pauses / deletes streams; a subscription on the activity stream must deliver one event per committed operation, in commit order, within 75 s; control run without authorisation first; "+
 		"non-trivial = run with authorisation on; distinct by (authz, operation)")
 	defer res.Write(t)
 	cleanupStorage(t)
@@ -114,7 +114,7 @@ func TestVerifC18WithAuthz(t *testing.T) {
 				return
 			}
 			// at least once: redeliveries of earlier events (same or smaller id) may come first
-			dl := time.Now().Add(15 * time.Second)
+			dl := time.Now().Add(75 * time.Second)
 			ev := next(time.Until(dl))
 			for ev != nil && ev.Id <= lastID {
 				res.Dist("redelivery")
@@ -123,7 +123,7 @@ func TestVerifC18WithAuthz(t *testing.T) {
 			switch {
 			case ev == nil:
 				res.Fail(vFailure{Kind: "spec", Case: []string{line}, Tag: "activity-event-missing-with-authz",
-					Detail: "the operation was committed (the call returned success); no event for it arrived on the activity stream within 15 s"})
+					Detail: "the operation was committed (the call returned success); no event for it arrived on the activity stream within 75 s"})
 				return
 			case ev.Op != o.want:
 				res.Fail(vFailure{Kind: "spec", Case: []string{line}, Tag: "activity-event-order", Detail: fmt.Sprintf("next event on the activity stream is %v, the operation committed next was %v", ev.Op, o.want)})
